@@ -1,13 +1,20 @@
 ------------------------------ MODULE FaultTrace ------------------------------
-(* Trace specification for C01 over the events of harness/parse_safe.cpp: one event per (base packet, fault). *)
+(* Trace specification over the events of harness/parse_safe.cpp: one event per (base packet, fault).
+   Prop = "C01": a packet or the malformed-packet error, nothing else; accessors of accepted packets fail only with libtins
+                 exceptions (memory safety, undefined behaviour, leaks and hangs are observed by the sanitizers and the alarm).
+   Prop = "C02": "For every packet obtained by parsing bytes ... serialize() succeeds and returns exactly size() bytes" -
+                 every packet the damaged buffer was accepted as (by the entry point and by each layer's constructor). *)
 EXTENDS TraceIO
+CONSTANT Prop
 VARIABLE dummy
 vars == <<ex, l, dummy>>
 Init == \E s \in Starts : TraceInit(s) /\ dummy = 0
 F == /\ IsEvent("f")
      /\ UNCHANGED dummy
-     /\ (Ev.applied => Ev.outcome \in {"packet", "malformed"}) = TRUE     \* a packet, or the malformed-packet error - nothing else
-     /\ Ev.acc_foreign = 0                                                  \* accessors fail only with libtins exceptions
+     /\ IF Prop = "C02"
+        THEN Ev.ser_fail = 0                                                   \* serialize() succeeds, |bytes| = size()
+        ELSE /\ (Ev.applied => Ev.outcome \in {"packet", "malformed"}) = TRUE  \* a packet, or the malformed-packet error - nothing else
+             /\ Ev.acc_foreign = 0                                            \* accessors fail only with libtins exceptions
 Next == F
 Spec == Init /\ [][Next]_vars
 =============================================================================
